@@ -64,6 +64,7 @@ Definition up_of_wevent (c : config) (n : nat) (e : wevent) : upmsg :=
   match e with
   | ECollFinish => UCollFinish (c_coll c n)
   | EComplete i => UComplete i (c_dur c i)
+  | EReport _ _ Garbled => UBad            (* the controller cannot decode this message *)
   | _ => UEv e
   end.
 
